@@ -542,7 +542,7 @@ func judgeEncoding(d Data, se specEntry, nObs *obs, refN *reading, enc *absconf.
 			return verdict{fail: &o}
 		}
 		if !jObs.err {
-			o := engine.Fail("c03.schema-violation.json-accepts."+se.kind+"."+feat, "%sboth readings violate the schema per spec.md / json/spec.md (native: %s), but hcldec.Decode of the JSON body reports no error (value %s)", where(), nObs.diag, vfmt.V(jObs.val))
+			o := engine.Fail("c03.schema-violation.json-accepts."+ctagOf(feat, se.kind), "%sboth readings violate the schema per spec.md / json/spec.md (native: %s), but hcldec.Decode of the JSON body reports no error (value %s)", where(), nObs.diag, vfmt.V(jObs.val))
 			return verdict{fail: &o}
 		}
 		return verdict{status: "both-error"}
@@ -551,6 +551,29 @@ func judgeEncoding(d Data, se specEntry, nObs *obs, refN *reading, enc *absconf.
 		return verdict{status: "by-design"}
 	}
 	// Comparable: the two documents denote the same content under this schema.
+	// The body level first (a difference there is a difference of the syntax
+	// layer, whatever the spec kind), then the decoder level. A failure that
+	// involves no JSON freedom at all ("plain") is qualified by the spec kind
+	// instead.
+	ctag := feat
+	if feat == "plain" {
+		ctag = "plain." + se.kind
+	}
+	nc, jc := nObs.content, jObs.content
+	if nc.err != jc.err {
+		cl, diag := "error-only-json", jc.diag
+		if nc.err {
+			cl, diag = "error-only-native", nc.diag
+		}
+		o := engine.Fail("c03.content."+cl+"."+ctag, "%sBody.Content(ImpliedSchema): native error=%v, JSON error=%v: %s", where(), nc.err, jc.err, diag)
+		return verdict{fail: &o}
+	}
+	if !nc.err {
+		if cl, detail := compareContent(nc, jc, enc.Order, ""); cl != "" {
+			o := engine.Fail("c03.content."+cl+"."+ctag, "%sBody.Content(ImpliedSchema) differs: %s", where(), detail)
+			return verdict{fail: &o}
+		}
+	}
 	if nObs.err != jObs.err {
 		cl, diag := "error-only-json", jObs.diag
 		if nObs.err {
@@ -562,21 +585,6 @@ func judgeEncoding(d Data, se specEntry, nObs *obs, refN *reading, enc *absconf.
 	if !nObs.err && !nObs.val.RawEquals(jObs.val) {
 		o := engine.Fail("c03.decode.value."+se.kind+"."+feat, "%shcldec.Decode: native value %s, JSON value %s", where(), vfmt.V(nObs.val), vfmt.V(jObs.val))
 		return verdict{fail: &o}
-	}
-	nc, jc := nObs.content, jObs.content
-	if nc.err != jc.err {
-		cl, diag := "error-only-json", jc.diag
-		if nc.err {
-			cl, diag = "error-only-native", nc.diag
-		}
-		o := engine.Fail("c03.content."+cl+"."+feat, "%sBody.Content(ImpliedSchema): native error=%v, JSON error=%v: %s", where(), nc.err, jc.err, diag)
-		return verdict{fail: &o}
-	}
-	if !nc.err {
-		if cl, detail := compareContent(nc, jc, enc.Order, ""); cl != "" {
-			o := engine.Fail("c03.content."+cl+"."+feat, "%sBody.Content(ImpliedSchema) differs: %s", where(), detail)
-			return verdict{fail: &o}
-		}
 	}
 	return verdict{status: "compared"}
 }
@@ -644,6 +652,13 @@ func judge(c engine.Case) engine.Outcome {
 		res = vfmt.V(nObs.val)
 	}
 	return engine.Pass(fmt.Sprintf("%s|%s|%s|cmp=%d,err=%d,design=%d,unspec=%d", se.name, res, nObs.content.digest(true), counts["compared"], counts["both-error"], counts["by-design"], counts["unspecified"]))
+}
+
+func ctagOf(feat, kind string) string {
+	if feat == "plain" {
+		return "plain." + kind
+	}
+	return feat
 }
 
 func pinned(d Data) *absconf.Encoding {
@@ -753,13 +768,13 @@ func gen(tier string, emit func(engine.Case) bool) {
 	thorough := tier == "thorough"
 	maxCut := 3
 	if thorough {
-		maxCut = 5
+		maxCut = 4
 	}
 	n := 0
 	emitConf := func(fam string, conf absconf.Body) bool {
 		n++
 		for _, se := range specs {
-			d := Data{Conf: conf, Spec: se.name, Degenerate: []string{"x", "y"}, MaxCut: maxCut, DecorProd: thorough, Native: absconf.Native(conf)}
+			d := Data{Conf: conf, Spec: se.name, Degenerate: []string{"x", "y"}, MaxCut: maxCut, DecorProd: thorough && conf.Size() <= 4, Native: absconf.Native(conf)}
 			if !emit(engine.Case{ID: fmt.Sprintf("%s/%04d/%s", fam, n, se.name), Data: d}) {
 				return false
 			}
@@ -844,7 +859,7 @@ func gen(tier string, emit func(engine.Case) bool) {
 					if !emitConf("nest", absconf.Body{B("x", xl, nb1...), B("x", xl, nb2...)}) {
 						return
 					}
-					if thorough {
+					if thorough && i+j <= 3 {
 						if !emitConf("nest", absconf.Body{B("x", xl, nb1...), B("y", yl, A("a", three)), B("x", xl, nb2...)}) {
 							return
 						}
@@ -888,9 +903,9 @@ func gen(tier string, emit func(engine.Case) bool) {
 
 // ---------------------------------------------------------------- shrink
 
-func shrink(c engine.Case) []engine.Case {
+func shrink(c engine.Case) (out []engine.Case) {
+	defer func() { recover() }() // never let a panic of the code under test escape from shrinking
 	d := c.Data.(Data)
-	var out []engine.Case
 	mk := func(conf absconf.Body, enc *absconf.Encoding, tag string) {
 		nd := d
 		nd.Conf, nd.Native, nd.JSON = conf, absconf.Native(conf), ""
@@ -934,7 +949,16 @@ func shrink(c engine.Case) []engine.Case {
 				nObs := observe(nf.Body, se.node)
 				refN := deepRead(refbody.NewNative(d.Conf), se.node)
 				absconf.Encodings(d.Conf, encOptions(d), func(enc *absconf.Encoding) bool {
-					if v := judgeEncoding(dd, se, nObs, refN, enc); v.fail != nil {
+					failed := false
+					func() {
+						defer func() {
+							if recover() != nil {
+								failed = true // a panic in the code under test: pin this encoding too
+							}
+						}()
+						failed = judgeEncoding(dd, se, nObs, refN, enc).fail != nil
+					}()
+					if failed {
 						mk(d.Conf, enc, "~")
 						return false
 					}
@@ -966,7 +990,7 @@ func main() {
 			}
 			confs++
 			n := int64(0)
-			absconf.Encodings(d.Conf, encOptions(d), func(*absconf.Encoding) bool { n++; return n < 5000000 })
+			absconf.Encodings(d.Conf, encOptions(d), func(*absconf.Encoding) bool { n++; return n < 300000 })
 			encs += n
 			k := strings.SplitN(c.ID, "/", 2)[0]
 			fam[k] = [2]int64{fam[k][0] + 1, fam[k][1] + n}
